@@ -16,7 +16,9 @@ Driver glue for `life.run` records (C11).
   stream), so a drop or a cancellation lands on its exact byte offset.  The model clock follows the trace
   timestamps (`tick`), stopping at every timer expiry in between; the retry periods are the script's minus the
   monitor's `tolEarly`.  `feed:i` = `offer`, `cstop`/`cres` = `consumerStop`/`consumerResume`, `ovr:k` = the four bytes
-  of an over-limit header.
+  of an over-limit header.  Scripts with `modes=` negotiate a mode per connection: the probe verdict fed at `acc:k`, the
+  frame boundaries of `tx:k` and the expected `binary` argument of `con:k` (`conFlag`) are those of connection k
+  (`Spec.Lifecycle.connScript`).
 -/
 namespace RawPanelVerif.Driver.Lifecycle
 open RawPanelVerif RawPanelVerif.Wire
@@ -41,8 +43,14 @@ def parseScript (args : List String) : Option Script := do
   let exp := match kvGet kv "exp" with | some e => e.splitOn ";" | none => []
   let cut := min (kvNat kv "cut" 0) stream.length
   let hold := min (kvNat kv "hold" stream.length) stream.length
+  -- `modes=` one letter per connection: b = binary (stream/exp), anything else = an ASCII handshake (astream/aexp)
+  let astream := match (kvGet kv "astream").bind unhex with | some b => b.toList.map (·.toNat) | none => []
+  let aexp := match kvGet kv "aexp" with | some e => e.splitOn ";" | none => []
+  let per : List (Mode × List Nat × List String) := match kvGet kv "modes" with
+    | some ms => ms.toList.map (fun c => if c = 'b' then (Mode.bin, stream, exp) else (Mode.asc, astream, aexp))
+    | none => []
   pure { mode, nc := kvNat kv "nc" 0, rc := kvNat kv "rc" 0, cyc := kvNat kv "cyc" 0, cut, hold,
-         park := kvNat kv "park" 0, appear := kvNat kv "appear" 0, stream, exp }
+         park := kvNat kv "park" 0, appear := kvNat kv "appear" 0, stream, exp, per }
 
 def parseEv (tok : String) : Option TEv := do
   match tok.splitOn ":" with
@@ -102,7 +110,7 @@ open RawPanelVerif.Lifecycle in
 /-- observable labels of one trace event (in order), given the bytes already sent per connection -/
 def obsOf (sc : Script) (sent : List (Nat × Nat)) (nconns : Nat) (x : TEv) (tokRaw : String) : List Lbl × List (Nat × Nat) :=
   match x.e with
-  | .acc _ => ([.dialOk (modeBinary sc.mode)], sent)
+  | .acc k => ([.dialOk (modeBinary (Spec.Lifecycle.connScript sc k).mode)], sent)
   | .pcl _ _ => ([.peerClose], sent)
   | .cancel => ([.cancel], sent)
   | .cancel2 => ([.cancel], sent)
@@ -110,7 +118,7 @@ def obsOf (sc : Script) (sent : List (Nat × Nat)) (nconns : Nat) (x : TEv) (tok
   | .cres => ([.consumerResume], sent)
   | .tx k off =>
     let prev := ((sent.find? (·.1 = k)).map (·.2)).getD 0
-    ((finFlags sc prev off).map .byteArrive, (k, max off prev) :: sent.filter (·.1 ≠ k))
+    ((finFlags (Spec.Lifecycle.connScript sc k) prev off).map .byteArrive, (k, max off prev) :: sent.filter (·.1 ≠ k))
   | .con _ _ => ([.onConnect], sent)
   | .dis _ b => ([.onDisconnect b], sent)
   | .ret => ([.ret], sent)
@@ -272,6 +280,18 @@ def closeOrder (tr0 : List TEv) : Option String :=
   | [] => none
   | k :: _ => some s!"socket-closed-after-disconnect-callback@conn{k}"
 
+/-- Model: the probe's verdict (`dialOk bin`) is taken anew on every connection.  Observable counterpart: the `binary`
+argument of the k-th connect callback is the mode the scripted panel negotiated on connection k (scripts with `modes=`
+change it between the connections of one call).  A comparison with the model's label, not a clause of the property. -/
+def conFlag (sc : Script) (tr0 : List TEv) : Option String :=
+  let tr := Spec.Lifecycle.upToEnd tr0
+  let bad := tr.filterMap (fun x => match x.e with
+    | .con k b => if b = modeBinary (Spec.Lifecycle.connScript sc k).mode then none else some k
+    | _ => none)
+  match bad with
+  | [] => none
+  | k :: _ => some s!"onconnect-binary-flag-not-the-negotiated-mode@conn{k}"
+
 def modeName : Mode → String
   | .absent => "absent" | .refuse => "refuse" | .silent => "silent" | .bin => "bin" | .asc => "asc" | .late => "late"
 
@@ -289,11 +309,12 @@ def step (cmd : String) (args : List String) (impl : String) : String :=
       let hs := match h with | none => "H1" | some c => s!"H0:{c}"
       let sim := simulate sc toks tr
       let hooked := tr.any (fun x => match x.e with | .hk _ => true | _ => false)
-      let tags := s!"B:mode={modeName sc.mode}" ++ String.join (sim.cancelPhases.map (fun p => s!" B:cancel@{p}"))
+      let tags := s!"B:mode={modeName sc.mode}" ++ (if sc.per.length > 1 then " B:modes=" ++ String.join (sc.per.map (fun p => if p.1 = Mode.bin then "b" else "a")) else "") ++ String.join (sim.cancelPhases.map (fun p => s!" B:cancel@{p}"))
         ++ (if sc.park > 0 then (if hooked then " B:parked" else " B:nohook") else "")
       if !sim.ok then s!"NE {hs} {sim.why} {tags}"
-      else match closeOrder tr with
-        | some c => s!"NE {hs} model:{c} {tags}"
-        | none => s!"EQ {hs} {tags}"
+      else match closeOrder tr, conFlag sc tr with
+        | some c, _ => s!"NE {hs} model:{c} {tags}"
+        | none, some c => s!"NE {hs} model:{c} {tags}"
+        | none, none => s!"EQ {hs} {tags}"
 
 end RawPanelVerif.Driver.Lifecycle
